@@ -671,7 +671,7 @@ impl Property for C01 {
     type Scenario = Scenario;
 
     fn rule() -> String {
-        "seeded simulations of 1-5 hosts drawn from three program families (TCP/UDP echo server; clients doing connect+request/response under timeouts, UDP pings raced against sleeps with select!, spawned tasks; fs workers using the std shim, the tokio shim and io_uring, logging read_dir order and CQE order) under every fault knob (latency range and curve, fail/repair rate, random host order, capacities, IP version, fs sync/io-error/short-read probabilities, io latency, page cache) and controller scripts (crash/bounce, partition/repair, hold/release at seeded steps). Each scenario is executed twice in one thread and the complete traces (program observations with virtual timestamps + turmoil's own Send/Delivered/Recv/Drop/Hold tracing events + step results + final clock) are compared; worker threads differ between scenarios; a batch is re-executed in two fresh OS processes and compared by digest. Non-trivial: >=1 network delivery and (a listing with >=3 entries, or a ring batch >=3, or random host order with >=2 hosts, or a fault fired); distinct = digest of the abstract trace shape. Added later: the second execution runs on a fresh OS thread and, in scenarios with manual deliveries (hold + Sim::links deliver_all), its controller stalls in real time before the first delivery; link occupancy after every step is part of the trace; epochs incl. the UNIX epoch itself and sub-second parts with created/modified stamps of files logged; fs knobs block_size 4/16 (contents read back at the start of every incarnation) and page-cache eviction probability 0.3/0.7 with repeated cached reads through a tokio File, fs latencies up to three ticks; a journal handle that lives as long as the incarnation; symlinks and a hard link; a waiter client with a short simulation_duration.".into()
+        "seeded simulations of 1-5 hosts drawn from three program families (TCP/UDP echo server; clients doing connect+request/response under timeouts, UDP pings raced against sleeps with select!, spawned tasks; fs workers using the std shim, the tokio shim and io_uring, logging read_dir order and CQE order) under every fault knob (latency range and curve, fail/repair rate, random host order, capacities, IP version, fs sync/io-error/short-read probabilities, io latency, page cache) and controller scripts (crash/bounce, partition/repair, hold/release at seeded steps). Each scenario is executed twice in one thread and the complete traces (program observations with virtual timestamps + turmoil's own Send/Delivered/Recv/Drop/Hold tracing events + step results + final clock) are compared; worker threads differ between scenarios; a batch is re-executed in two fresh OS processes and compared by digest. Non-trivial: >=1 network delivery and (a listing with >=3 entries, or a ring batch >=3, or random host order with >=2 hosts, or a fault fired); distinct = digest of the abstract trace shape. Added later: the second execution runs on a fresh OS thread and, in scenarios with manual deliveries (hold + Sim::links deliver_all), its controller stalls in real time before the first delivery; link occupancy after every step is part of the trace; epochs incl. the UNIX epoch itself and sub-second parts with created/modified stamps of files logged; fs knobs block_size 4/16 (contents read back at the start of every incarnation) and page-cache eviction probability 0.3/0.7 with repeated cached reads through a tokio File, fs latencies up to three ticks; a journal handle that lives as long as the incarnation; symlinks and a hard link; a waiter client with a short simulation_duration. Round 11: the echo server may be the host registered last.".into()
     }
     fn components_real() -> Vec<&'static str> {
         vec!["turmoil (Sim, Builder, World rng, Topology, per-host tokio runtimes with RngSeed, net::tcp/udp, crash/bounce/partition/hold)", "turmoil-fs (per-host rng, std/tokio shims, read_dir)", "turmoil-io-uring (completion order shuffle from the fs rng)"]
